@@ -107,6 +107,7 @@ impl rustc_driver::Callbacks for Cb {
             // attributes we care about: #[test]
             o.push(("hir", hirx::export_body(tcx, def)));
             o.push(("mir", mirx::export_body(tcx, def)));
+            o.push(("promoted_fns", mirx::export_promoted_fns(tcx, def)));
             fns.push(J::Obj(o));
         }
 
@@ -176,6 +177,10 @@ impl rustc_driver::Callbacks for Cb {
                         ("name", J::s(&tcx.def_path_str(did))),
                         ("ty", J::s(&ty.to_string())),
                         ("mutable", J::Bool(tcx.is_mutable_static(did))),
+                        (
+                            "freeze",
+                            J::Bool(ty.is_freeze(tcx, rustc_middle::ty::TypingEnv::fully_monomorphized())),
+                        ),
                         ("exp", J::Bool(item.span.from_expansion())),
                     ]));
                 }
